@@ -1,3 +1,3 @@
 from . import c04, c15, c17, c18, c19, c20, json_props, render_props, resolver_props, text_props, heap_props, seq_props
 
-MODULES = {"C01": heap_props, "C02": heap_props, "C03": heap_props, "C16": heap_props, "C18": c18, "C04": c04, "C15": c15, "C11": json_props, "C19": c19, "C17": c17, "C09": render_props, "C07": resolver_props, "C08": resolver_props, "C12": text_props, "C13": text_props, "C20": c20, "C05": seq_props, "C06": seq_props, "C14": seq_props}
+MODULES = {"C01": heap_props, "C02": heap_props, "C03": heap_props, "C16": heap_props, "C18": c18, "C04": c04, "C15": c15, "C11": json_props, "C10": json_props, "C19": c19, "C17": c17, "C09": render_props, "C07": resolver_props, "C08": resolver_props, "C12": text_props, "C13": text_props, "C20": c20, "C05": seq_props, "C06": seq_props, "C14": seq_props}
